@@ -4,7 +4,7 @@ import os
 
 import core
 from corr.bloom import strategy
-from search.common import drive, keys_pool
+from search.common import drive, geometry_twin, keys_pool
 
 
 def gen(rng):
@@ -31,7 +31,8 @@ def check(case):
     if kind in ("bloom", "bloom-ondisk", "bloom-ondisk2"):
         try:
             mk = lambda: P.BloomFilter(est_elements=case["est"], false_positive_rate=case["fpr"], hash_function=fn)
-            a, b, both = mk(), P.BloomFilter(est_elements=case["est"], false_positive_rate=case["fpr"], hash_function=fn_b), mk()
+            tw = geometry_twin(case["est"], case["fpr"]) if len(a_ops) % 3 == 0 else None
+            a, b, both = mk(), P.BloomFilter(est_elements=tw[0] if tw else case["est"], false_positive_rate=tw[1] if tw else case["fpr"], hash_function=fn_b), mk()
         except P.exceptions.InitializationError:
             return None
         with core.Scratch() as tmp:
@@ -53,7 +54,7 @@ def check(case):
                 uu = a.union(a)  # the stream of a, twice: the same bits
                 if uu is None or bytes(uu.bloom) != sa or bytes(a.bloom[: a.bloom_length]) != sa:
                     return "union of a filter with itself differs from the filter / modified it"
-                if u.elements_added >= 0 and (bytes(u) != bytes(both)[:-12] + bytes(u)[-12:] or len(bytes(u)) != len(bytes(both))):
+                if u.elements_added >= 0 and (bytes(u)[:-20] != bytes(both)[:-20] or len(bytes(u)) != len(bytes(both))):
                     return "export of the union differs in its cells from the export of the filter fed both streams"
                 c, both2 = mk(), mk()
                 for k, _ in a_ops:
